@@ -4,6 +4,21 @@ NOTES = ("Every check re-compiles coq/theories/Properties/<id>.v (theorems over 
          "implementation. See DESIGN.md. known_findings.json lists recorded defects; replays/ is written only on failure.")
 NOT_APPLICABLE = {}
 CLAIMS = {
+    "C01": {
+        "text": "PARTIAL proof + full correspondence. Theorem: the printer's rendering of every quoted word is read back exactly by the tokenizer model in value "
+                "context (any string, any style, any following text). The tree-level round trip (levels 3/2/0, any width >= 40, byte-identical second print) is "
+                "decided on every run by running parse -> print -> parse -> print in freephil and in the extracted parser/printer model on rich generated "
+                "documents, and by the oracle comparing the two trees under the level's view.",
+        "note": "Trusted: Coq kernel, extraction, driver, harness, hand-written models of tokenizer.py, parser.py, the printer in common.py, str(converter); "
+                "textwrap.wrap modelled for the options the code passes; float converters carried as printed text; no tree-level theorem yet.",
+    },
+    "C19": {
+        "text": "Theorems over the printer model for all trees/widths/prefixes: printing with expert level k is byte-identical to printing the pruned tree without "
+                "filter (for trees as the parser builds them: side condition wf_show, evaluated on every parsed tree of the stream); a negative level shows everything; "
+                "attributes level 0 prints no attribute, visibility is monotone in the level, level 1 shows only help/alias, level 2 only set attributes. PARTIAL for "
+                "the re-parse clauses and the prefix clause, which are decided by correspondence (text byte for byte) + oracle on every run.",
+        "note": "Trusted as C01. The oracle's view() is the property text made executable.",
+    },
     "C02": {
         "text": "PARTIAL proof + full correspondence. Theorems (all inputs): blank/newline runs, structure-context comments and the quoted spelling of a word "
                 "are invisible to the tokenizer model (token-level layout insensitivity). The tree-level statement - every rendering of an abstract tree by the "
